@@ -17,11 +17,15 @@ VNAMES = ["A", "B", "C", "D", "E", "F", "G", "H"]      # id = index = byte order
 FNAMES = ["a", "b", "c", "d", "e", "f"]
 
 # ---------------------------------------------------------------------------------------------
-# type declarations.  tyexpr: ("int",) | ("tp",) | ("cls", name, arg|None)
-# class: {"name", "generic": bool, "kind": "enum"|"struct", "variants": [(vid, [tyexpr])] | "fields": [(fid, tyexpr)]}
+# type declarations.  tyexpr: ("int",) | ("tp", i) | ("cls", name, (arg, ...)|None)
+# class: {"name", "generic": number of type parameters (0, 1 or 2), "kind": "enum"|"struct", "variants": [(vid, [tyexpr])] | "fields": [(fid, tyexpr)]}
+
+
+TPNAMES = ["T", "U"]
 
 
 def gen_tyexpr(rng, classes, self_cls, in_generic, allow_self=True):
+    """in_generic = number of type parameters in scope"""
     opts = [("int", 4)]
     if in_generic:
         opts.append(("tp", 4))
@@ -33,15 +37,22 @@ def gen_tyexpr(rng, classes, self_cls, in_generic, allow_self=True):
     if k == "int":
         return ("int",)
     if k == "tp":
-        return ("tp",)
+        return ("tp", rng.below(in_generic))
     if k == "self":
-        return ("cls", self_cls["name"], ("tp",) if self_cls["generic"] else None)
+        n = self_cls["generic"]
+        # regular recursion only: the class applied to its own parameters (possibly swapped)
+        args = tuple(("tp", i) for i in range(n))
+        if n == 2 and rng.chance(1, 3):
+            args = (args[1], args[0])
+        return ("cls", self_cls["name"], args if n else None)
     c = rng.pick(classes)
     if c["generic"]:
         nong = [d for d in classes if not d["generic"]]
-        a = rng.weighted([("int", 3), ("tp", 3 if in_generic else 0), ("cls", 2 if nong else 0)])
-        arg = ("int",) if a == "int" else ("tp",) if a == "tp" else ("cls", rng.pick(nong)["name"], None)
-        return ("cls", c["name"], arg)
+        args = []
+        for _ in range(c["generic"]):
+            a = rng.weighted([("int", 3), ("tp", 3 if in_generic else 0), ("cls", 2 if nong else 0)])
+            args.append(("int",) if a == "int" else ("tp", rng.below(in_generic)) if a == "tp" else ("cls", rng.pick(nong)["name"], None))
+        return ("cls", c["name"], tuple(args))
     return ("cls", c["name"], None)
 
 
@@ -49,7 +60,7 @@ def gen_classes(rng):
     classes = []
     n = rng.range(1, 4)
     for i in range(n):
-        generic = rng.chance(1, 3)
+        generic = rng.weighted([(0, 6), (1, 2), (2, 1)])
         c = {"name": ("G%d" if generic else "C%d") % i, "generic": generic}
         if rng.chance(7, 10):
             c["kind"] = "enum"
@@ -69,11 +80,11 @@ def gen_classes(rng):
     return classes
 
 
-def subst(t, arg):
+def subst(t, args):
     if t[0] == "tp":
-        return arg if arg is not None else ("int",)
+        return args[t[1]] if args is not None and t[1] < len(args) else ("int",)
     if t[0] == "cls" and t[2] is not None:
-        return ("cls", t[1], subst(t[2], arg))
+        return ("cls", t[1], tuple(subst(x, args) for x in t[2]))
     return t
 
 
@@ -91,8 +102,8 @@ def ty_src(t):
     if t[0] == "int":
         return "int"
     if t[0] == "tp":
-        return "T"
-    return t[1] + (f"<{ty_src(t[2])}>" if t[2] is not None else "")
+        return TPNAMES[t[1]]
+    return t[1] + ("<" + ", ".join(ty_src(x) for x in t[2]) + ">" if t[2] else "")
 
 
 def closure(classes, root):
@@ -157,6 +168,8 @@ def gen_pat(rng, classes, t, depth, in_or=False, malformed=False, ctr=None):
             return ("O", [(rng.below(len(FNAMES)), ("W",))])
     leafy = depth >= 4 or d[0] == "prim" or rng.chance(2 + depth, 10)
     if leafy:
+        if malformed and not in_or and ctr[0] > 0 and rng.chance(1, 8):
+            return ("I", rng.range(1, ctr[0]))      # a name that is (probably) already bound: NameAlreadyBound
         return ("W",) if in_or or rng.chance(1, 2) else ("I", fresh(ctr))
     if depth < 3 and rng.chance(1, 6):
         withf = [(v, tys) for v, tys in d[2] if tys] if d[0] == "enum" else []
@@ -190,6 +203,9 @@ def gen_pat(rng, classes, t, depth, in_or=False, malformed=False, ctr=None):
     items = rng.shuffle(items)
     if malformed and rng.chance(1, 5) and len(items) > 1:
         items = items[:-1]
+    if malformed and rng.chance(1, 6):
+        f, x = rng.pick(items)      # the same field twice (fixed finding C07-F2)
+        items = items + [(f, gen_pat(rng, classes, dict(fs)[f], depth + 1, in_or, False, ctr))]
     return ("O", items)
 
 
@@ -247,7 +263,7 @@ def pat_depth(p):
 
 
 def class_src(c):
-    head = f"class {c['name']}" + ("<T>" if c["generic"] else "")
+    head = f"class {c['name']}" + ("<" + ", ".join(TPNAMES[:c["generic"]]) + ">" if c["generic"] else "")
     if c["kind"] == "enum":
         body = ", ".join(VNAMES[v] + ("(" + ", ".join(ty_src(x) for x in tys) + ")" if tys else "") for v, tys in c["variants"])
     else:
@@ -296,8 +312,9 @@ def case_line(case):
         if t[0] == "int":
             return ["i"]
         if t[0] == "tp":
-            return ["t"]
-        return ["c", str(cls_ids[t[1]])] + (["0"] if t[2] is None else ["1"] + gty(t[2]))
+            return ["t", str(t[1])]
+        args = t[2] or ()
+        return ["c", str(cls_ids[t[1]]), str(len(args))] + [x for a in args for x in gty(a)]
     toks += ["G", str(len(classes))]
     for c in classes:
         if c["kind"] == "enum":
@@ -319,7 +336,8 @@ def gen_case(rng, malformed=False, want_uninhabited=False):
         arg = None
         if root_cls["generic"]:
             nong = [c for c in classes if not c["generic"]]
-            arg = ("cls", rng.pick(nong)["name"], None) if nong and rng.chance(1, 2) else ("int",)
+            arg = tuple(("cls", rng.pick(nong)["name"], None) if nong and rng.chance(1, 2) else ("int",)
+                        for _ in range(root_cls["generic"]))
         ty = ("cls", root_cls["name"], arg)
         order, _ = closure(classes, ty)
         inh = min_inhabitants(classes, order)
@@ -327,7 +345,7 @@ def gen_case(rng, malformed=False, want_uninhabited=False):
             break
         if want_uninhabited:
             # force it: a fresh enum whose only variant refers to itself, used as a field type
-            bad = {"name": "C9", "generic": False, "kind": "enum", "variants": [(rng.below(len(VNAMES)), [("cls", "C9", None)])]}
+            bad = {"name": "C9", "generic": 0, "kind": "enum", "variants": [(rng.below(len(VNAMES)), [("cls", "C9", None)])]}
             classes = classes + [bad]
             tgt = rng.pick(classes[:-1])
             if tgt["kind"] == "enum":
@@ -341,7 +359,7 @@ def gen_case(rng, malformed=False, want_uninhabited=False):
             if not all(v is not None for v in inh.values()):
                 break
     else:
-        classes = [{"name": "C0", "generic": False, "kind": "enum", "variants": [(0, []), (1, [("int",)])]}]
+        classes = [{"name": "C0", "generic": 0, "kind": "enum", "variants": [(0, []), (1, [("int",)])]}]
         ty = ("cls", "C0", None)
     kind = rng.weighted([("match", 7), ("let", 1), ("iflet", 2)])
     if kind == "match":
@@ -439,12 +457,37 @@ def pat_binds(classes, p, t):
     return out
 
 
-def well_formed(classes, p, t):
+def dup_names(p):
+    """(set of names bound, True if one scope binds a name twice) - or-alternatives are separate scopes"""
+    k = p[0]
+    if k == "W":
+        return set(), False
+    if k == "I":
+        return {p[1]}, False
+    if k == "R":
+        rs = [dup_names(x) for x in p[1]]
+        return rs[0][0], any(d for _, d in rs)
+    subs = p[1] if k == "T" else [x for _, x in p[1]] if k == "O" else p[2]
+    names, dup = set(), False
+    for x in subs:
+        n, d = dup_names(x)
+        dup = dup or d or bool(names & n)
+        names |= n
+    return names, dup
+
+
+def well_formed(classes, p, t, top=True):
+    if top and dup_names(p)[1]:
+        return False
+    return well_formed1(classes, p, t)
+
+
+def well_formed1(classes, p, t):
     k = p[0]
     if k in ("W", "I"):
         return True
     if k == "R":
-        if not all(well_formed(classes, x, t) for x in p[1]):
+        if not all(well_formed1(classes, x, t) for x in p[1]):
             return False
         b0 = pat_binds(classes, p[1][0], t)
         return all(pat_binds(classes, x, t) == b0 for x in p[1][1:])
@@ -453,14 +496,14 @@ def well_formed(classes, p, t):
         if d[0] != "enum" or p[1] not in dict(d[2]):
             return False
         tys = dict(d[2])[p[1]]
-        return len(tys) == len(p[2]) and all(well_formed(classes, x, tt) for x, tt in zip(p[2], tys))
+        return len(tys) == len(p[2]) and all(well_formed1(classes, x, tt) for x, tt in zip(p[2], tys))
     if d[0] != "struct":
         return False
     if k == "T":
-        return len(p[1]) == len(d[1]) and all(well_formed(classes, x, tt) for x, (_, tt) in zip(p[1], d[1]))
+        return len(p[1]) == len(d[1]) and all(well_formed1(classes, x, tt) for x, (_, tt) in zip(p[1], d[1]))
     fs = dict(d[1])
     names = [f for f, _ in p[1]]
-    return sorted(names) == sorted(fs) and all(well_formed(classes, x, fs[f]) for f, x in p[1])
+    return sorted(names) == sorted(fs) and all(well_formed1(classes, x, fs[f]) for f, x in p[1])
 
 
 def parse_cex(text):
@@ -763,9 +806,9 @@ def exhaustive_small(ctx, stats, limit):
     """Search stream: every list of <= 3 arms over a fixed small declaration set drawn from a fixed
     pattern vocabulary (depth <= 2) - separates single-line changes of specialise/default/roots."""
     classes = [
-        {"name": "G0", "generic": True, "kind": "enum", "variants": [(0, []), (1, [("tp",)])]},
-        {"name": "C1", "generic": False, "kind": "enum", "variants": [(2, []), (3, [("cls", "C1", None)]), (4, [("cls", "G0", ("int",)), ("cls", "C1", None)])]},
-        {"name": "C2", "generic": False, "kind": "struct", "fields": [(0, ("cls", "G0", ("cls", "C1", None))), (1, ("cls", "C1", None))]},
+        {"name": "G0", "generic": 1, "kind": "enum", "variants": [(0, []), (1, [("tp", 0)])]},
+        {"name": "C1", "generic": 0, "kind": "enum", "variants": [(2, []), (3, [("cls", "C1", None)]), (4, [("cls", "G0", (("int",),)), ("cls", "C1", None)])]},
+        {"name": "C2", "generic": 0, "kind": "struct", "fields": [(0, ("cls", "G0", (("cls", "C1", None),))), (1, ("cls", "C1", None))]},
     ]
     W = ("W",)
     g = lambda *a: ("V", 1, list(a), True)
@@ -785,7 +828,7 @@ def exhaustive_small(ctx, stats, limit):
     return cases
 
 
-F1_CASE = {"classes": [{"name": "C0", "generic": False, "kind": "struct", "fields": [(0, ("int",)), (1, ("int",))]}],
+F1_CASE = {"classes": [{"name": "C0", "generic": 0, "kind": "struct", "fields": [(0, ("int",)), (1, ("int",))]}],
            "ty": ("cls", "C0", None), "kind": "match", "pats": [("T", [("I", 1), ("I", 2)]), ("T", [("I", 3), ("I", 4), ("I", 5)])],
            "malformed": True}
 
@@ -845,7 +888,7 @@ def run(ctx):
         "pending": PENDING})
     ctx.assumptions += [
         "every type reachable from the scrutinee type has a value (Inhabited'); for uninhabited recursive enums the algorithm still asks for all variants (stated in DESIGN section 8 C07)",
-        "no name is bound twice inside one alternative (NameAlreadyBound is outside the model)",
+        "identifiers do not shadow the function parameter (generated names are fresh)",
         "variant names <= 15 bytes so that PStr order is byte order"]
     return ctx.finish(res, trusted=common.TRUSTED_COMMON + [
         "hand-written model Model/Useful.lean (HashMap of root constructors as association list; default-matrix row order differs from the Rust work-list, no caller depends on it)",
@@ -854,9 +897,8 @@ def run(ctx):
 
 
 PENDING = [
-    "normalize_preserves_matching: a Lean-side matching semantics of *source* patterns and the proof that the abstract node of a well-formed source pattern matches the same values (today: the Python brute-force oracle checks the real checker's verdicts against source-level matching)",
-    "an explicit fuel bound function (termination is proved as: some fuel suffices and the answer is stable from there on; the driver runs with 10^7 and reports `fuel` otherwise)",
-    "classes with more than one type parameter, NameAlreadyBound diagnostics (same name twice in one alternative)",
+    "visibility of fields (`private val`) in patterns is not modelled (generators declare public fields only)",
+    "the run-time meaning of `smatch` (that the lowered match really tests what the source-level semantics says) belongs to C01/C03 (`lowerMatch_correct`); finding C07-F2 was found by executing the compiled program by hand, the check itself does not execute programs",
 ]
 
 
@@ -867,7 +909,14 @@ def load_case(d):
     def ty(x):
         if x is None:
             return None
-        return tuple([x[0]] + [ty(y) if isinstance(y, list) else y for y in x[1:]])
+        if x[0] == "int":
+            return ("int",)
+        if x[0] == "tp":
+            return ("tp", x[1] if len(x) > 1 else 0)
+        a = x[2]
+        if a is not None and a and isinstance(a[0], str):
+            a = [a]                       # legacy single-argument form
+        return ("cls", x[1], None if a is None else tuple(ty(y) for y in a))
 
     def pat(p):
         k = p[0]
@@ -883,6 +932,7 @@ def load_case(d):
     classes = []
     for c in d["classes"]:
         c = dict(c)
+        c["generic"] = int(c["generic"])
         if c["kind"] == "enum":
             c["variants"] = [(v, [ty(x) for x in tys]) for v, tys in c["variants"]]
         else:
